@@ -523,8 +523,9 @@ Definition convert_ipaddr (junk : bytes) (sa : option saddr) (family : Z) : outc
 Record nrow := { n_name : bytes; n_fam : Z; n_addr : bytes; n_mask : option bytes; n_bcast : option bytes;
                  n_ptp : option bytes }.
 
-(* one iteration of the loop in psutil_net_if_addrs; Py_BuildValue("(siOOOO)") decodes the name as strict UTF-8 *)
-Definition c_ifa_row (junk : bytes) (i : ifa) : outcome (option nrow) :=
+(* one iteration of the loop in psutil_net_if_addrs.  As the code is, Py_BuildValue("(siOOOO)") decodes ifa_name as strict
+   UTF-8 (fsnames = false); fsnames = true is the proposed repair (PyUnicode_DecodeFSDefault, total) *)
+Definition c_ifa_row (fsnames : bool) (junk : bytes) (i : ifa) : outcome (option nrow) :=
   match ifa_addr i with
   | None => Val None
   | Some a =>
@@ -539,20 +540,54 @@ Definition c_ifa_row (junk : bytes) (i : ifa) : outcome (option nrow) :=
                 else if Z.testbit (ifa_flags i) 4       (* IFF_POINTOPOINT *)
                 then do p <- convert_ipaddr junk (ifa_baddr i) family; Val (None, p)
                 else Val (None, None));
-      if utf8_valid (ifa_name i)
+      if fsnames || utf8_valid (ifa_name i)
       then Val (Some {| n_name := ifa_name i; n_fam := family; n_addr := ad; n_mask := mask;
                         n_bcast := fst bp; n_ptp := snd bp |})
       else Exc UnicodeError
     end
   end.
 
-Fixpoint c_net_if_addrs (junk : bytes) (l : list ifa) : outcome (list nrow) :=
+Fixpoint c_net_if_addrs_gen (fsnames : bool) (junk : bytes) (l : list ifa) : outcome (list nrow) :=
   match l with
   | [] => Val []
   | i :: r =>
-    do x <- c_ifa_row junk i;
-    do xs <- c_net_if_addrs junk r;
+    do x <- c_ifa_row fsnames junk i;
+    do xs <- c_net_if_addrs_gen fsnames junk r;
     Val (match x with Some row => row :: xs | None => xs end)
+  end.
+
+Definition c_net_if_addrs := c_net_if_addrs_gen false.            (* the code as it is *)
+Definition c_net_if_addrs_fsnames := c_net_if_addrs_gen true.    (* proposed repair *)
+
+(* an interface name coming IN (net_if_mtu / net_if_flags / net_if_is_running / net_if_duplex_speed).  As the code is:
+   the "s" format (strict UTF-8, [conv_s]).  Proposed repair: "O&" with PyUnicode_FSConverter -- str is encoded with the
+   filesystem encoding + surrogateescape (U+DC80..U+DCFF stand for the bytes 0x80..0xFF), bytes are taken as they are *)
+Definition fs_enc (c : Z) : option bytes :=
+  if (56448 <=? c) && (c <=? 56575) then Some [c - 56320] else utf8_enc c.
+Fixpoint fs_encode (cps : list Z) : option bytes :=
+  match cps with
+  | [] => Some []
+  | c :: r => match fs_enc c, fs_encode r with Some a, Some b => Some (a ++ b) | _, _ => None end
+  end.
+Definition conv_fs (v : pyval) : outcome bytes :=
+  match v with
+  | PStr cps => match fs_encode cps with
+                | None => Exc UnicodeError
+                | Some b => if contains 0 b then Exc ValueError else Val b
+                end
+  | PBytes b => if contains 0 b then Exc ValueError else Val b
+  | _ => Exc TypeError
+  end.
+Definition nic_name_in (fsnames : bool) (v : pyval) : outcome bytes := if fsnames then conv_fs v else conv_s v.
+(* the str the Python layer holds for a name read from /proc/net/dev (open_text: filesystem encoding, surrogateescape)
+   when none of its bytes >= 0x80 is part of a valid UTF-8 sequence: every such byte escaped *)
+Definition fs_esc (c : Z) : Z := if c <? 128 then c else 56320 + c.
+(* _pslinux.net_if_stats(): the ioctl wrappers are called with every name of /proc/net/dev; only OSError(ENODEV) is
+   tolerated, so a name that cannot be converted makes the whole call fail *)
+Fixpoint net_if_stats_names (fsnames : bool) (names : list (list Z)) : outcome (list bytes) :=
+  match names with
+  | [] => Val []
+  | cps :: r => do b <- nic_name_in fsnames (PStr cps); do bs' <- net_if_stats_names fsnames r; Val (b :: bs')
   end.
 
 (* psutil.net_if_addrs(): rawlist.sort(key=family) (stable), then the AF_LINK padding of the address *)
